@@ -113,6 +113,9 @@ let run_case op t =
       let x = read_f ty t in let y = read_f ty t in
       let (ct, rt) = if op = "fmod" then (ct_fmod, rt_fmod) else (ct_remainder, rt_remainder) in
       (res_s (okf ty false) (ct f x y), okf ty false (rt x y))
+  | "bitcast" ->
+      let _ = next_str t in let _ = next_int t in let b = next_z t in
+      let s = okz b in (s, s)
   | "fmod_rt" | "remainder_rt" ->
       let ty = next_str t in let _ = next_int t in let _ = next_int t in
       let x = read_f ty t in let y = read_f ty t in
